@@ -1135,7 +1135,7 @@ func (c *Ctx) ResponsesDoc() *Doc {
 	// as `default` or only under fixed statuses. Now and then a spec breaks it (either
 	// order): goag may refuse such a spec - but if it accepts it, every operation still
 	// writes what it documents
-	if cs := c.comps(); len(cs.Responses) > 0 && rapid.IntRange(0, 5).Draw(t, "break_default_numbered_restriction") == 0 {
+	if cs := c.comps(); len(cs.Responses) > 0 && c.Allow("responses:break-restriction") && rapid.IntRange(0, 5).Draw(t, "break_default_numbered_restriction") == 0 {
 		name := rapid.SampledFrom(SortedKeys(cs.Responses)).Draw(t, "restricted_component")
 		first, second := "404", "default"
 		if c.respUse()[c.responseTarget(name)] == "D" || rapid.IntRange(0, 2).Draw(t, "restriction_order") == 0 {
